@@ -119,7 +119,11 @@ def main():
         "engines": [
             {"name": "store", "path": "coolsim/store_engine.py",
              "serves_properties": sorted(p for p, c in checks.PROPS.items() if c["engine"] == "store" and p in CLAIMS),
-             "kind_free_text": "deterministic simulation of operation histories with fault injection (F1-F6), process-kill snapshots (F5) and a reference model, under the seeded baton-passing kernel"},
+             "kind_free_text": "deterministic simulation of operation histories with fault injection (F1-F6), process-kill snapshots (F5) and a reference model, under the seeded baton-passing kernel (kernel.py, seams.py); pooled operations run real worker code on simulated processes"},
+            {"name": "fault-enumerator", "path": "coolsim/c13.py", "serves_properties": ["C13"],
+             "kind_free_text": "per-workload enumeration of fault placements (F1, F2, F4, F6), stratified or exhaustive F3 interrupts, F5 snapshots at every close; runs on the store engine"},
+            {"name": "balance", "path": "coolsim/balance_engine.py", "serves_properties": ["C11"],
+             "kind_free_text": "real balance_cooler / `cooler balance` under seeded completion orders, chunk sizes and map kinds vs the sequential unchunked run and a dense reference; an operation of the store engine"},
         ],
         "checks": [],
         "not_applicable": [{"property_id": k, "reason": v} for k, v in sorted(NA.items())],
